@@ -596,6 +596,8 @@ class Evaluator:
                 return Res(False, args[0])
             if path.endswith('Option::Some'):
                 return ('Some', args[0])
+            if path.startswith('phf::') and len(args) == 1:
+                return args[0]          # phf::Slice::Static(&[..]) wraps the literal table
             raise Unanalysable('constructor ' + path, e)
         if callee is None:
             fv = self.eval(e['f'], env)
